@@ -20,7 +20,7 @@ def _fit(s, n, pad="A"):
 class Built(object):
     """A generated plasmid and what is known about it by construction."""
 
-    def __init__(self, role, g, segs, rot_, case=None, rid="rec"):
+    def __init__(self, role, g, segs, rot_, case=None, rid="rec", also=()):
         self.role = role
         self.g = g
         self.id = rid
@@ -41,7 +41,10 @@ class Built(object):
                 for i in range(pos, pos + len(t)):
                     prot[i] = "fixed"
             pos += len(t)
-        word = gen.repair_sites(word, [g.site, g.rsite], prot, circular=True,
+        sites = [g.site, g.rsite]
+        for g2 in also:
+            sites += [g2.site, g2.rsite]
+        word = gen.repair_sites(word, sites, prot, circular=True,
                                 max_pass=6 * n + 50)
         self.offs = offs
         self.word0 = word                      # unrotated, upper
@@ -104,24 +107,24 @@ class Built(object):
         return CircularRecord(Seq(self.seq), id=self.id, name=self.id, **extra)
 
 
-def build_module(g, m, rid="m"):
+def build_module(g, m, rid="m", also=()):
     segs = [
         ("site", g.site), ("x", _fit(m.get("x"), g.n)),
         ("o5", _fit(m["o5"], g.k)), ("t", _fit(m.get("t"), max(2, len(m.get("t") or "")))),
         ("o3", _fit(m["o3"], g.k)), ("y", _fit(m.get("y"), g.n)),
         ("rsite", g.rsite), ("b", _fit(m.get("b"), len(m.get("b") or ""))),
     ]
-    return Built("module", g, segs, m.get("rot", 0), m.get("case"), m.get("id", rid))
+    return Built("module", g, segs, m.get("rot", 0), m.get("case"), m.get("id", rid), also)
 
 
-def build_vector(g, v, rid="v"):
+def build_vector(g, v, rid="v", also=()):
     segs = [
         ("o_down", _fit(v["o_down"], g.k)), ("y", _fit(v.get("y"), g.n)),
         ("rsite", g.rsite), ("p", _fit(v.get("p"), len(v.get("p") or ""))),
         ("site", g.site), ("x", _fit(v.get("x"), g.n)),
         ("o_up", _fit(v["o_up"], g.k)), ("b", _fit(v.get("b"), max(2, len(v.get("b") or "")))),
     ]
-    return Built("vector", g, segs, v.get("rot", 0), v.get("case"), v.get("id", rid))
+    return Built("vector", g, segs, v.get("rot", 0), v.get("case"), v.get("id", rid), also)
 
 
 _CLASS_CACHE = {}
